@@ -90,10 +90,10 @@ class Gen:
         r = self.r
         return vs(r.choice(CTL_S)) if r.random() < 0.7 else vi(r.randint(0, 6))
 
-    def pairs(self, lo=1, hi=3):
+    def pairs(self, lo=1, hi=3, flat=False):
         out = []
         for _ in range(self.r.randint(lo, hi)):
-            out += [self.ctl(), self.cvalue()]
+            out += [self.ctl(), self.scalar() if flat else self.cvalue()]
         return out
 
     def synth_args(self):
@@ -426,7 +426,9 @@ class Gen:
         if k in ('odd_set', 'empty_set', 'dict_set', 'dict_setn', 'tuple_setn', 'freed_obj_arg') and not ln:
             return self.op_synth()
         if k == 'odd_set':
-            self.emit({'op': r.choice(['n_set', 'n_setn', 'n_map', 'n_mapn']), 'n': r.choice(ln), 'args': self.pairs(0, 2) + [self.ctl()]})
+            o = r.choice(['n_set', 'n_setn', 'n_map', 'n_mapn'])
+            # nested lists outside n_set are sent as OSC blobs (messages / bundles): not part of the model
+            self.emit({'op': o, 'n': r.choice(ln), 'args': self.pairs(0, 2, flat=(o != 'n_set')) + [self.ctl()]})
         elif k == 'empty_set':
             self.emit({'op': r.choice(['n_set', 'n_setn', 'n_map', 'n_mapn']), 'n': r.choice(ln), 'args': []})
         elif k == 'dict_set':
